@@ -152,9 +152,11 @@ def get_determinant_section(protein: "MolecularContainer", conformation: str, pa
     # printing determinants
     for chain in protein.conformations[conformation].chains:
         for residue_type in parameters.write_out_order:
+            # only the groups that belong in the report (with --titrate_only
+            # the unlisted residues are kept as non-titratable groups)
             groups = [
                 g for g in protein.conformations[conformation].groups
-                if g.atom.chain_id == chain]
+                if g.atom.chain_id == chain and g.use_in_calculations()]
             for group in groups:
                 if group.residue_type == residue_type:
                     str_ += "{0:s}".format(
@@ -184,7 +186,8 @@ def get_summary_section(protein: "MolecularContainer", conformation: str,
     # printing pKa summary
     for residue_type in parameters.write_out_order:
         for group in protein.conformations[conformation].groups:
-            if group.residue_type == residue_type:
+            if (group.residue_type == residue_type
+                    and group.use_in_calculations()):
                 str_ += "{0:s}".format(
                     group.get_summary_string(
                         parameters.remove_penalised_group))
